@@ -96,7 +96,7 @@ theorem rt_plain (cls : CClass) (info : CondClassInfo) (c : Ctor) (hinfo : cls.i
     rw [hpre, hins] at this
     exact this
   rcases buildLeaf_cases Arg.lit cls c hshape posA kwA l hl with
-    ⟨hvp, hvk, bound, hb, rfl⟩ | ⟨hvp, hvk, hp, hkw0, rfl⟩ | ⟨hvp, hvk, hp, hpos0, rfl⟩
+    ⟨hvp, hvk, bound, hb, rfl⟩ | ⟨hvp, hvk, hp, hkw0, rfl⟩ | ⟨hvp, hvk, hp, hpos0, hres, rfl⟩
   · -- no var-parameters
     have hk := bind_keys Arg.lit c.defaults _ _ _ _ hb
     have hvals : ∀ b ∈ bound, LitP scalarB b.2 :=
@@ -189,7 +189,7 @@ theorem rt_plain (cls : CClass) (info : CondClassInfo) (c : Ctor) (hinfo : cls.i
         exact atom_of_scalar hs)
       (pps_kw fuel kwA (hkeys hvkn))
     exact tail_varkw _ cls c _ _ kwA _ hp hvp hvkn hsn (strKeysS_lits scalarB kwA hkw)
-      (rebuild_varkw Arg.lit cls c hshape hvp hvkn hp kwA)
+      (rebuild_varkw Arg.lit cls c hshape hvp hvkn hp kwA hres)
 
 /-! ### type objects -/
 
